@@ -471,8 +471,13 @@ func runC20(cfg config) {
 	totalNodes := 0
 	exprCache := map[string]*fhirpath.Expression{}
 	var jsonBad, fpBad []string
+	var preparedX proto.Message
 	doExtract := func(name string, depth int, keepContained bool) {
-		res := g.resource(name, depth)
+		res := preparedX
+		if res == nil {
+			res = g.resource(name, depth)
+		}
+		preparedX = nil
 		for try := 0; keepContained && try < 20; try++ { // insist on a contained resource / a bundle entry
 			fd := res.ProtoReflect().Descriptor().Fields().ByName("contained")
 			if name == "Bundle" {
@@ -578,6 +583,30 @@ func runC20(cfg config) {
 		}
 		sink.add(fmt.Sprintf("CExtract %s %s %s, OExtract %s", coqBytes(name), coqList(ts), tree, coqList(results)),
 			fmt.Sprintf("extract from generated %s (%d nodes, %d elements found)", name, tb.nodes, found), k, fmt.Sprintf("extract:%s:%d", name, tb.nodes/20))
+	}
+	// elements below the date-like primitives (extensions of a date, of a dateTime in a choice, of an instant, of a time)
+	xs := func(u string, nested ...*dtpb.Extension) *dtpb.Extension {
+		e := &dtpb.Extension{Url: &dtpb.Uri{Value: "http://example.org/" + u}, Extension: nested}
+		if len(nested) == 0 {
+			e.Value = &dtpb.Extension_ValueX{Choice: &dtpb.Extension_ValueX_StringValue{StringValue: &dtpb.String{Value: u}}}
+		}
+		return e
+	}
+	{
+		p := basePatient()
+		p.BirthDate.Extension = []*dtpb.Extension{xs("a"), xs("b", xs("b1"), xs("b2"))}
+		p.BirthDate.Id = &dtpb.String{Value: "bd"}
+		p.Deceased = &ppb.Patient_DeceasedX{Choice: &ppb.Patient_DeceasedX_DateTime{DateTime: &dtpb.DateTime{ValueUs: 1710014400000000, Timezone: "Z", Precision: dtpb.DateTime_SECOND, Extension: []*dtpb.Extension{xs("d"), xs("e")}}}}
+		p.Name[0].Period = &dtpb.Period{Start: &dtpb.DateTime{ValueUs: 1710014400000000, Timezone: "Z", Precision: dtpb.DateTime_DAY, Extension: []*dtpb.Extension{xs("s", xs("s1"))}}}
+		preparedX = p
+		doExtract("Patient", 2, false)
+		o := temporalObservation()
+		o.Issued.Extension = []*dtpb.Extension{xs("i"), xs("j")}
+		o.GetValue().GetTime().Extension = []*dtpb.Extension{xs("t", xs("t1"))}
+		o.GetEffective().GetDateTime().Extension = []*dtpb.Extension{xs("f"), xs("g")}
+		o.Component[1].GetValue().GetTime().Extension = []*dtpb.Extension{xs("c")}
+		preparedX = o
+		doExtract("Observation", 2, false)
 	}
 	for _, name := range types {
 		doExtract(name, 2, false)
